@@ -16,6 +16,7 @@ Restarting Arnodli and Lanczos algorithms, algo 11.4
 """
 
 import torch
+from emu_base import _verif
 from dataclasses import dataclass, replace
 from typing import Callable, Tuple, cast
 
@@ -51,6 +52,17 @@ def krylov_energy_minimization(
         max_krylov_dim=max_krylov_dim,
     )
 
+    if _verif.enabled():
+        _verif.emit(
+            "kmin_exit",
+            iters=result.iteration_count,
+            converged=result.converged,
+            breakdown=result.happy_breakdown,
+            restarts=result.restart_count,
+            resid=float(result.residual_norm),
+            energy=float(result.ground_energy),
+            tol=residual_tolerance,
+        )
     if not result.converged and not result.happy_breakdown:
         raise RecursionError(
             "Krylov ground state solver did not converge "
